@@ -1,8 +1,9 @@
 #!/bin/sh
-# developer helper: run every claimed quick check, print verdict + time
+# developer helper: run every claimed check (quick tier, or the tier given), print verdict + time
 cd /verif
+TIER=${1:-quick}
 for P in $(python3 -c "import json;print(' '.join(c['property_id'] for c in json.load(open('MANIFEST.json'))['checks']))"); do
-  s=$(date +%s); out=$(./check $P 2>&1); rc=$?; e=$(date +%s)
+  s=$(date +%s); out=$(./check $P --tier $TIER 2>&1); rc=$?; e=$(date +%s)
   echo "$P rc=$rc $(($e-$s))s viol=$(echo "$out" | grep -c '^VIOLATION') known=$(echo "$out" | grep -c '^KNOWN-FINDING')"
   echo "$out" | grep '^VIOLATION\|OBLIGATION FAILED' | head -3
 done
